@@ -51,6 +51,7 @@ def run(ctx):
   rule_empty(ctx)
   rule_null(ctx)
   rule_optional_args(ctx)
+  rule_optional_results(ctx)
   rule_nonempty_dict(ctx)
   rule_bool(ctx)
   rule_window(ctx)
@@ -83,10 +84,12 @@ def run(ctx):
   ctx.borrow(c10.rule_lookup, "R-C18-ALIGN")          # self._table[x] only for x in the table (KeyError otherwise)
   from . import c08
   ctx.borrow(c08.rule_extract, "R-C18-INVERT", lambda r: r.where.startswith("hidden_number_problem:"))
-  ctx.expect("R-C18-ALIGN", 9, "four Check bodies consuming a batched search + BatchGCD one result per input")
+  # sigs[idx] with idx from the issuer map: the map must be built over the very list it indexes (the per-curve sub-batch), else IndexError on mixed batches
+  ctx.borrow(c08.rule_group, "R-C18-ALIGN", lambda r: r.where.startswith("ecdsa_sig_checks:"))
+  ctx.expect("R-C18-ALIGN", 13, "four Check bodies consuming a batched search + BatchGCD one result per input + index maps of the two per-curve ECDSA checks")
   ctx.expect("R-C18-WINDOW", 1, "one windowed lattice call")
   ctx.expect("R-C18-EMPTY", 24 + 3, "24 Check bodies + 3 entry points")
-  ctx.expect("R-C18-NULL", 10, "seven draws from CURVE_FACTORY + optional constructor arguments")
+  ctx.expect("R-C18-NULL", 14, "seven draws from CURVE_FACTORY + optional constructor arguments + two consumers of InverseSqrt2exp")
   ctx.expect("R-C18-BOOL", 24, "24 Check bodies")
 
 
@@ -715,6 +718,87 @@ def rule_intpow(ctx):
       ctx.record(R, fn.where, "exponent %s - %d" % (xt[:60], cst), ok, "the size gate (>= %d) keeps the exponent non-negative" % g if ok else
                  "the path only guarantees %s >= %d: for values in [%d, %d) the power is a float (2 ** -k) and the integer square root / floor division that consumes it raises TypeError" % (xt[:60], g, g, cst))
   ctx.extra["gated_power_sites"] = n_sites
+
+
+# ------------------------------------------------------------------ NULL (an optional result consumed without a test)
+def rule_optional_results(ctx):
+  """ntheory_util.InverseSqrt2exp(n, k) answers None exactly when there is no inverse square root: for k >= 3 iff n % 8 != 1 (R-C19-HENSEL).  A caller
+  that hands the result on without testing it (rsa_util.FactorHighAndLowBitsEqual passes it straight to Inverse2exp, which does arithmetic on it) must
+  therefore know n % 8 == 1 and k >= 3 at the call: any other modulus (8 | n, say) raises TypeError there."""
+  R = "R-C18-NULL"
+  repo = ctx.repo
+  from pcstatic import termeval
+  target = P("lit", "ntheory_util:InverseSqrt2exp")
+  n_sites = 0
+  for fn in repo.all_funcs(include_examples=False):
+    if fn.module.short.endswith("_test") or "InverseSqrt2exp" not in ast.unparse(fn.node) or fn.where.endswith(":InverseSqrt2exp"):
+      continue
+    w = sym.Walker(repo, fn)
+    try:
+      w.run()
+    except Incomplete:
+      continue
+    seen = {}
+    for e in w.events:
+      if e.kind != "call" or not isinstance(e.data.get("value"), Poly):
+        continue
+      va = e.data["value"].as_atom()
+      if va is None or va.kind != "call" or va.args[0] != target or len(va.args) < 3:
+        continue
+      v = e.data["value"]
+      # consumers: later events on a path through this call that mention the result inside a larger term and do not know it is not None
+      probs = []
+      tested = False
+      for e2 in w.events:
+        if e2 is e or e2.kind not in ("call", "return", "store", "augassign", "setattr"):
+          continue
+        vals = [e2.data.get(k_) for k_ in ("value", "rhs", "index")] + list(e2.data.get("args", []) if e2.kind == "call" else [])
+        used = False
+        for x in vals:
+          if isinstance(x, Seq):
+            x = as_poly(x)
+          if isinstance(x, Poly) and x != v and any(t_ == va for t_ in x.all_atoms()):
+            used = True
+          if e2.kind == "call" and isinstance(x, Poly) and x == v and x is not e2.data.get("value"):
+            used = True               # handed to another function as an argument
+        if e2.kind == "call" and isinstance(e2.data.get("value"), Poly) and e2.data["value"] == v:
+          continue
+        if not used:
+          continue
+        knows = any((fc[0] == "cmp" and fc[1] in ("IsNot", "NotEq") and isinstance(fc[2], Poly) and fc[2] == v and isinstance(fc[3], Const) and fc[3].v is None) or
+                    (fc[0] == "truthy" and isinstance(fc[1], Poly) and fc[1] == v) for fc in e2.facts)
+        if knows:
+          tested = True
+          continue
+        nn, kk = va.args[1], va.args[2]
+        res1 = any(fc[0] == "cmp" and fc[1] == "Eq" and isinstance(fc[2], Poly) and isinstance(fc[3], Poly) and fc[2] == sym.mk("mod", nn, Poly.const(8)) and fc[3].as_int() == 1
+                   for fc in e2.facts)
+        # k >= 3 from the lower bound the path has on bit_length(n)
+        kok = False
+        bl = sym.mk("bitlen", nn)
+        lows = [fc[3].as_int() + (1 if fc[1] == "Gt" else 0) for fc in e2.facts if fc[0] == "cmp" and fc[1] in ("GtE", "Gt") and isinstance(fc[2], Poly) and fc[2] == bl and
+                isinstance(fc[3], Poly) and fc[3].as_int() is not None]
+        if kk.as_int() is not None:
+          kok = kk.as_int() >= 3
+        elif lows and bl.as_atom() is not None:
+          try:
+            ks = [termeval.ev(kk, {bl.as_atom(): b_}) for b_ in range(max(lows), max(lows) + 130)]
+            kok = all(isinstance(x_, int) and x_ >= 3 for x_ in ks) and all(b_ >= a_ for a_, b_ in zip(ks, ks[1:]))
+          except (termeval.Unknown, termeval.Raises):
+            kok = False
+        if not (res1 and kok):
+          probs.append("the result of InverseSqrt2exp(%s, %s) is consumed by `%s` untested on a path that %s: None (no inverse square root) raises TypeError there" % (
+              repr(nn)[:30], repr(kk)[:40], norm(e2.node)[:60] if e2.node is not None else e2.kind,
+              "does not know n % 8 == 1" if not res1 else "does not know k >= 3"))
+      key = norm(e.node)[:70] if e.node is not None else "call"
+      prev = seen.get(key)
+      if prev is None or (not prev and probs):
+        seen[key] = sorted(set(probs))
+    for key, probs in sorted(seen.items()):
+      n_sites += 1
+      ctx.record(R, fn.where, key, not probs, "; ".join(probs[:2]) or "the result is tested for None, or the call is made only with n % 8 == 1 and k >= 3 (where a root exists)")
+  if n_sites == 0:
+    ctx.incomplete(R, "ntheory_util:InverseSqrt2exp", "call sites", "no call site of InverseSqrt2exp found")
 
 
 # ------------------------------------------------------------------ NEXT (next() on an iterator that may be exhausted raises StopIteration)
